@@ -223,8 +223,14 @@ CURVES = ['log100_oetf', 'log100_inverse_oetf', 'log316_oetf', 'log316_inverse_o
           'rec_470m_oetf', 'rec_470m_inverse_oetf', 'rec_470bg_oetf', 'rec_470bg_inverse_oetf', 'rec_709_oetf', 'rec_709_inverse_oetf',
           'xvycc_eotf', 'xvycc_inverse_eotf', 'srgb_eotf', 'srgb_inverse_eotf', 'st_2084_inverse_oetf', 'st_2084_oetf',
           'arib_b67_inverse_oetf', 'arib_b67_oetf']
+SLOW_FINITE = ['xvycc_inverse_eotf', 'st_2084_inverse_oetf', 'st_2084_oetf']
+def transfer_finite_harnesses(tier):
+    hs = [H(f'finite_{c}', domain='x: every f32 in [0,1]', desc=f'{c}: finite output') for c in CURVES if c not in SLOW_FINITE]
+    if tier == 'thorough':
+        hs += [H(f'finite_{c}', bounded='optional: complete query but > 4 min; per-harness timeout', timeout=2400, domain='x: every f32 in [0,1]', desc=f'{c}: finite output') for c in SLOW_FINITE]
+    return hs
 def transfer_total_harnesses():
-    return [H(f'total_{c}', domain='x: all 2^32 f32 bit patterns', desc=f'{c}: no panic/overflow/invalid float->int for any f32; finite on [0,1]') for c in CURVES] + \
+    return [H(f'total_{c}', domain='x: all 2^32 f32 bit patterns', desc=f'{c}: no panic/overflow/invalid float->int for any f32') for c in CURVES] + \
            [H(f'flatten_len_{n}', bounded=f'Vec length == {n}', domain=f'{n} pixels, concrete content', desc='from_raw_parts_mut flatten in bounds (pointer checks) and pointwise') for n in range(4)]
 KH = ('src/hsl.rs', 'k_hsl.rs', 'verif_kani_hsl')
 KL = ('src/linear_rgb.rs', 'k_lrgb.rs', 'verif_kani_lrgb')
@@ -352,7 +358,7 @@ def plan_c13(tier, seed):
            H('xyb_inverse_one_pixel_total', bounded='Vec length 1', domain='one pixel, all f32 triples')]
     return {'verus': [('u_dispatch', {})],
             'kani': [{'crate_dir': 'yuvxyb-math', 'inject': MATH_INJECT, 'harnesses': math_totality_harnesses() + [H('powf_unit_interval_finite', domain='x in [0,1], y in [0,80]', desc='finite, non-negative')]},
-                     {'crate_dir': '', 'inject': [YR, KT, KH, KL, KX], 'harnesses': hs + [h for h in transfer_total_harnesses() if not h.bounded]}]}
+                     {'crate_dir': '', 'inject': [YR, KT, KH, KL, KX], 'harnesses': hs + [h for h in transfer_total_harnesses() if not h.bounded] + transfer_finite_harnesses(tier)}]}
 reg('C13', plan=plan_c13, level='proof', min_obligations=1500,
     title='Conversions are total on arbitrary float data and always emit valid codes',
     technique='Kani loop-free harnesses over all f32 bit patterns for every scalar kernel (default checks = overflow/debug-assertion semantics + UB); Verus: ypbpr_to_ycbcr emits only codes <= 2^n-1 and its Yuv::new(..).unwrap() cannot fail; no unwrap/expect on any conversion path',
@@ -360,7 +366,7 @@ reg('C13', plan=plan_c13, level='proof', min_obligations=1500,
          'no panic, no arithmetic/shift overflow, no invalid float->int conversion; emitted codes <= 2^n-1 for every depth/range/storage; finite [0,1] inputs give finite outputs. Unbounded proof (Verus) that the encoder loop stores only such codes, '
          'that the constructor then accepts the frame (unwrap cannot panic) and that every conversion body is panic-free given the kernels (the image conversions are maps of the kernels, C11). The XYB per-image loops are covered only for one pixel (bounded).',
     note=BITPRECISE + '; ' + '; '.join(PLANES_ASSUME) + '; supported configuration = bit depth 8..16, subsampling shifts < 64, dimensions multiples of the subsampling (otherwise ypbpr_to_ycbcr panics by design). ' + TOOLS,
-    assumptions=[BITPRECISE] + PLANES_ASSUME, not_decided=['XYB per-image loops beyond one pixel'], design_ref='DESIGN.md §5 C13')
+    assumptions=[BITPRECISE] + PLANES_ASSUME, not_decided=['XYB per-image loops beyond one pixel', 'finite-in/finite-out for xvycc_inverse_eotf and the two PQ curves in the quick tier (thorough tier, under a timeout)'], design_ref='DESIGN.md §5 C13')
 
 # ------------------------------------------------------------------------------------------- C16
 def plan_c16(tier, seed):
@@ -385,12 +391,14 @@ reg('C16', plan=plan_c16, level='proof', min_obligations=3000,
 # ------------------------------------------------------------------------------------------- C10 (bounded only)
 def plan_c10(tier, seed):
     hs = [H(f'grid10_{c}', bounded='10-bit code grid x = c/1023, c = 0..1023 (all 1024 points symbolic)', domain='c in 0..=1023', timeout=1500,
-            desc='|to_gamma(to_linear(x)) - x| < 2.5e-4 (PQ 5.7e-4) through the real scalar pair') for c in ['bt1886', 'bt470m', 'bt470bg', 'srgb', 'xvycc', 'pq']]
+            desc='|to_gamma(to_linear(x)) - x| < 2.5e-4 through the real scalar pair') for c in ['bt1886', 'bt470m', 'bt470bg', 'srgb', 'xvycc']]
+    if tier == 'thorough':   # PQ (8 powf per round trip) did not finish in 25 min: thorough only, under a per-harness timeout, never an alarm on timeout
+        hs.append(H('grid10_pq', bounded='optional: 10-bit code grid, PQ; per-harness timeout', domain='c in 0..=1023', timeout=3600, desc='PQ round trip < 5.7e-4'))
     return {'kani': [{'crate_dir': '', 'inject': [KT], 'harnesses': hs, 'timeout': 3000}]}
 reg('C10', plan=plan_c10, level='model_checking', min_obligations=0,
     title='Gamma->linear->gamma on the 10-bit grid (bounded stand-in; nothing counted as proved)',
     technique='bounded Kani/CBMC: the real scalar curve pair composed on every point of the 10-bit code grid (1024 symbolic codes per curve), bit-precise',
-    text='BOUNDED stand-in, not a proof of the property: for the six curve families built on the repo\'s own powf (BT.1886 family, BT.470M, BT.470BG, sRGB, xvYCC, PQ) every 10-bit grid value x = c/1023 passes through the real to_linear then to_gamma scalars '
+    text='BOUNDED stand-in, not a proof of the property: for the curve families built on the repo\'s own powf (BT.1886 family, BT.470M, BT.470BG, sRGB, xvYCC; PQ only in the thorough tier under a timeout) every 10-bit grid value x = c/1023 passes through the real to_linear then to_gamma scalars '
          'and returns within 2.5e-4 (PQ: 5.7e-4). The statement quantifies over all f32 in [0,1]; values between grid points, HLG and the log curves (std ln/log10, which CBMC over-approximates) and Linear (identity, proved under C03) are outside this check.',
     note='bounded: 1024 grid points per curve; ' + BITPRECISE + '. ' + TOOLS,
     assumptions=[BITPRECISE, 'grid only: not a proof for all f32 in [0,1]'],
